@@ -14,7 +14,7 @@ namespace Mux
 
 /-- who a pattern was registered for -/
 inductive Target where
-  | dispatch                  -- `c.dispatch` (container.go:120/132/134)
+  | dispatch                  -- `c.dispatch` (container.go:121/134/137)
   | plain (id : Nat)          -- a handler given to `Container.Handle` / `HandleWithFilter`
   deriving DecidableEq, Repr
 
